@@ -15,7 +15,7 @@ class Score:
     """
     def __init__(self, chords=None, config=None, tags=None, time_signature = None, tempo=None):
         self.chords = chords
-        self.config = config
+        self.config = dict(config) if config is not None else None
         if self.chords is None:
             self.chords = []
         if self.config is None:
